@@ -2,6 +2,7 @@
 import re
 
 from lib import mir as M
+from lib import loops as LP
 
 CLAIM = {
  "text": "For every workspace function instance reachable (monomorphic call-graph walk with resolved trait calls and closures) from the parser entry "
@@ -11,9 +12,15 @@ CLAIM = {
          "is unreachable or cannot fire: every Assert terminator (arithmetic overflow, division by zero, array bounds), every call of a panicking std "
          "leaf (explicit panic!/unreachable!/assert!, unwrap/expect, Index::index, split_at, remove, ...), every allocation request (with_capacity, "
          "vec![x; n], reserve) whose size is not bounded by a small constant or by the length of data already held, and every cycle of the instance-level "
-         "call graph (unbounded recursion). Sites that cannot be discharged are violations unless listed by exact key as a recorded finding "
+         "call graph (unbounded recursion). R16.5 (`loop forever`): every natural loop (70) of the MIR control-flow graph of every reachable function "
+         "passes, on every cycle through its head, the success edge of a step that consumes from a finite object created outside the loop: next/next_if* "
+         "of a finite std iterator (type built from source and adaptor constructors of a frozen table; Some edge) or a call whose bottom-up summary says "
+         "that every successful return has consumed input through the same object (base: Read::read_exact into a fixed non-empty buffer; Ok resp. "
+         "Some(Ok) edge, located by following the result through `?`, context, is_some/is_none, match); relative seeks have a proved non-negative "
+         "argument, the one absolute seek pair (with_pos) saves and restores the position. Sites that cannot be discharged are violations unless listed by exact key as a recorded finding "
          "(known_findings.json) or as reviewed-safe with a reason (reviewed_safe.json).",
- "note": "Not decided: loop termination (`loop forever`), stack depth of non-recursive call chains, panics inside external crates other than the frozen "
+ "note": "Not decided: termination of loops inside external crates and of the write_code retry loop beyond the reviewed set-growth argument (its two premises "
+         "are C02 R02.5/R02.6), stack depth of non-recursive call chains, panics inside external crates other than the frozen "
          "list of panicking std/indexmap leaves, behaviour of const-generic instances other than the first one dumped per function (N only changes array "
          "lengths guarded by the Namespace newtype). A discharged site is a proof under the interval abstraction; an undischarged site is reported, so the "
          "check can be stricter than the property but is never silent about a new abort site. Trusted: rustc MIR (opt-level 0, overflow checks on), "
@@ -273,18 +280,213 @@ def run(F, R, tier):
         R.inst("R16.4", key, ok, detail=why)
     R.inst("R16.4", "instance-graph", len(nodes) >= 1000, got=len(nodes), expect=">= 1000 workspace instances", nontrivial=False)
 
+    # --- R16.5 loop progress
+    r16_5(F, R, P, mono)
+
     R.floor("R16.1", ASSERT_FLOOR)
     R.floor("R16.2", 8)
     R.floor("R16.3", 10)
     R.extra["a1"] = dict(counts, functions=len(P.fns), instances=mono["n_instances"], entries=[e["name"] for e in mono["entries"]],
                          recursion_cycles=len(cyc))
     R.assume("external crates (std, indexmap, java_string, anyhow) do not panic outside the frozen panicking-leaf list")
-    R.assume("loop termination is not decided")
+    R.assume("std iterators over in-memory data, Lines/Bytes over the given finite input and Read::read_exact on a non-empty buffer consume a finite "
+             "resource; loops inside external crates terminate when the closures they are given return")
     return ("A1: interval/value-set abstract interpretation of the MIR of %d reachable workspace functions (%d instances) from %d entry points; "
             "%d Assert obligations (%d dead, %d by intervals, %d by the wide-counter rule), %d panicking-leaf call sites (%d dead), %d allocation "
             "obligations, %d recursion cycles" % (len(P.fns), mono["n_instances"], len(mono["entries"]), counts["assert"], counts["assert_dead"],
                                                   counts["assert_interval"], counts["assert_wide"], counts["panic"], counts["panic_dead"],
                                                   counts["alloc"], len(cyc)))
+
+
+
+LOOP_FLOOR = 60
+
+
+def r16_5(F, R, P, mono):
+    """loop progress: every natural loop of every reachable workspace function consumes a finite resource on every cycle."""
+    R.rule("R16.5", "no reachable loop can run forever: in the MIR control-flow graph of every reachable workspace function, every cycle through a "
+                    "loop head passes the success edge of a step that consumes from a finite object created outside the loop - `next`/`next_if*` "
+                    "of a finite std iterator (Some edge) or a call that, by its bottom-up summary, consumes at least one unit of input on every "
+                    "successful return (Ok / Some(Ok) edge; base: Read::read_exact into a non-empty fixed buffer); cursors are only moved forwards "
+                    "(relative seeks have a non-negative argument) or restored to a saved mark")
+    A = LP.Analysis(P, mono)
+    n_loops = 0
+    n_iter = 0
+    for f in sorted(P.fns.values(), key=lambda f: f.path):
+        rep = A.loop_report(f)
+        if not rep:
+            continue
+        fn = short(f.path)
+        # ordinal of the loop in source order (span of the head block's terminator), stable under edits elsewhere in the function
+        rep.sort(key=lambda r: (_sp_key(f.blocks[r[0]]["t"].get("sp")), r[0]))
+        for n, (h, body, ok, why, drivers) in enumerate(rep, 1):
+            n_loops += 1
+            key = "loop:%s#%d" % (fn, n)
+            sp = norm_sp(f.blocks[h]["t"].get("sp"))
+            if ok:
+                if drivers and all(d.startswith("step of finite iterator") for d in drivers):
+                    n_iter += 1
+                R.inst("R16.5", key, True, sp=sp, detail="driven by: " + "; ".join(drivers[:4]))
+                continue
+            if key in R.reviewed:
+                R.used_reviewed.append({"key": key, "reason": R.reviewed[key]["reason"]})
+                R.inst("R16.5", key, True, sp=sp, detail="reviewed-safe: " + R.reviewed[key]["reason"])
+                continue
+            R.inst("R16.5", key, False, sp=sp, detail="loop without a progress argument in %s: %s" % (f.path, why))
+    R.floor("R16.5", LOOP_FLOOR)
+
+    # --- cursor discipline: who moves a cursor other than by reading, and how
+    rel, absolute = {}, {}
+    for f in sorted(P.fns.values(), key=lambda f: f.path):
+        seeks = False
+        variants = set()
+        for bi, b in enumerate(f.blocks):
+            if b["cleanup"]:
+                continue
+            for st in b["s"]:
+                if st["k"] == "assign" and st["rv"]["k"] == "agg" and "SeekFrom" in (st["rv"].get("adt") or ""):
+                    variants.add(st["rv"].get("vname"))
+            if b["t"]["k"] == "call":
+                for key, full, ws in A.callee_infos(f, bi):
+                    if not ws and LP.method_name(full) in LP.SEEK_NAMES:
+                        seeks = True
+        if seeks:
+            if variants == {"Current"}:
+                rel[f.key] = f
+            else:
+                absolute[f.key] = f
+    repositioning = {}
+    for f in sorted(P.fns.values(), key=lambda f: f.path):
+        for bi, b in enumerate(f.blocks):
+            if b["cleanup"] or b["t"]["k"] != "call":
+                continue
+            t = b["t"]
+            for key, full, ws in A.callee_infos(f, bi):
+                if key in rel:
+                    st = block_state(f, bi)
+                    if st is None:
+                        continue
+                    v = f.operand(st, t["args"][1])[0] if len(t["args"]) > 1 else (None, None)
+                    ok = v[0] is not None and v[0] >= 0
+                    R.inst("R16.5", ukey_simple(R, "forward-skip:%s:%s" % (short(f.path), f.stable_describe(t["args"][1]) if len(t["args"]) > 1 else "?")),
+                           ok, sp=norm_sp(t["sp"]), detail="relative seek by %s" % M.show(v) if ok else
+                           "the cursor may be moved backwards: %s(%s) with %s" % (rel[key].path, f.describe(t["args"][1]) if len(t["args"]) > 1 else "?", M.show(v)),
+                           nontrivial=False)
+                if key in absolute and f.key not in absolute:
+                    repositioning.setdefault(f.key, (f, []))[1].append(bi)
+    for k, (f, sites) in sorted(repositioning.items()):
+        ok, why = restores_mark(A, f, sites, absolute)
+        R.inst("R16.5", "absolute-seek-restored:%s" % short(f.path), ok, sp=norm_sp(f.blocks[sites[0]]["t"]["sp"]), detail=why)
+        # a repositioning function is not a progress step, and must not be used inside a loop
+    for f in sorted(P.fns.values(), key=lambda f: f.path):
+        g = A.graph(f)
+        for h, body in sorted(g.loops().items()):
+            for bi in sorted(body):
+                if f.blocks[bi]["t"]["k"] != "call":
+                    continue
+                for key, full, ws in A.callee_infos(f, bi):
+                    if key in absolute or key in repositioning:
+                        k2 = "seek-in-loop:%s:%s" % (short(f.path), LP.method_name(full))
+                        ok = k2 in R.reviewed
+                        if ok:
+                            R.used_reviewed.append({"key": k2, "reason": R.reviewed[k2]["reason"]})
+                        R.inst("R16.5", k2, ok, sp=norm_sp(f.blocks[bi]["t"]["sp"]),
+                               detail="a loop body repositions the cursor absolutely (%s): progress by reading is not monotone" % full)
+    R.inst("R16.5", "seek-primitives", True, got={"relative": sorted(x.path for x in rel.values()), "absolute": sorted(x.path for x in absolute.values()),
+                                                  "repositioning": sorted(x[0].path for x in repositioning.values())}, nontrivial=False)
+    for k in repositioning:
+        A.consumes.pop(k, None)
+    R.extra["loops"] = {"loops": n_loops, "iterator_only": n_iter, "summaries": len([k for k, v in A.consumes.items() if v]),
+                        "summary_rounds": A.rounds}
+
+
+def ukey_simple(R, base):
+    seen = getattr(R, "_c16_seen", None)
+    if seen is None:
+        seen = R._c16_seen = {}
+    n = seen.get(base, 0) + 1
+    seen[base] = n
+    return base if n == 1 else "%s#%d" % (base, n)
+
+
+def _sp_key(sp):
+    m = re.search(r":(\d+):(\d+)-", sp or "")
+    return (int(m.group(1)), int(m.group(2))) if m else (1 << 30, 0)
+
+
+def restores_mark(A, f, sites, absolute):
+    """the last absolute seek of a repositioning function goes back to a position saved (stream_position) before the first one."""
+    g = A.graph(f)
+    dom = g.dominators()
+    sites = sorted(sites)
+    if len(sites) < 2:
+        return False, "%s seeks to an absolute position and never returns to the position it started from" % f.path
+    last = [b for b in sites if all(b == o or o in dom.get(b, ()) for o in sites)]
+    if len(last) != 1:
+        return False, "cannot order the absolute seeks of %s" % f.path
+    last = last[0]
+    first = [b for b in sites if all(b == o or b in dom.get(o, ()) for o in sites)]
+    if len(first) != 1:
+        return False, "cannot order the absolute seeks of %s" % f.path
+    t = f.blocks[last]["t"]
+    if len(t["args"]) < 2:
+        return False, "absolute seek without a position argument"
+    origin = origin_calls(A, f, t["args"][1])
+    if origin is None:
+        return False, "the position of the last absolute seek in %s is not the result of a call" % f.path
+    ob, names = origin
+    if not (names & {"stream_position", "position", "marker"}):
+        return False, "the last absolute seek in %s goes to the result of %s, not to a saved stream position" % (f.path, sorted(names))
+    if ob not in dom.get(first[0], ()):
+        return False, "the position restored at the end of %s is not saved before the first seek" % f.path
+    # every successful return passes the restoring seek
+    fail = A.failure_blocks(f)
+    seen, st = set(), [0]
+    while st:
+        v = st.pop()
+        if v in seen or v in fail or v == last:
+            continue
+        seen.add(v)
+        if f.blocks[v]["t"]["k"] == "return":
+            return False, "%s can return successfully without restoring the saved position" % f.path
+        st.extend(g.succ[v])
+    return True, "saves the position (block %d), seeks, and restores it on every successful return" % ob
+
+
+def origin_calls(A, f, o, depth=0):
+    """(block, {callee method names}) of the call whose result an operand carries (through moves, casts, `?`, context)."""
+    p = o.get("mv") or o.get("cp")
+    seen = set()
+    while p is not None and len(seen) < 30:
+        l = p[0]
+        if l in seen:
+            return None
+        seen.add(l)
+        defs = []
+        for bi, b in enumerate(f.blocks):
+            if b["cleanup"]:
+                continue
+            for s in b["s"]:
+                if s["k"] == "assign" and s["p"] == [l]:
+                    defs.append(("s", bi, s))
+            t = b["t"]
+            if t["k"] == "call" and t.get("dest") == [l]:
+                defs.append(("c", bi, t))
+        if len(defs) != 1:
+            return None
+        kind, bi, d = defs[0]
+        if kind == "c":
+            names = set(LP.method_name(full) for _, full, _ in A.callee_infos(f, bi))
+            if names & {"branch", "context", "with_context", "map_err", "from", "into"}:
+                p = (d["args"][0].get("mv") or d["args"][0].get("cp")) if d.get("args") else None
+                continue
+            return bi, names
+        rv = d["rv"]
+        if rv["k"] in ("use", "cast") and ("mv" in rv["a"] or "cp" in rv["a"]):
+            p = rv["a"].get("mv") or rv["a"].get("cp")
+            continue
+        return None
+    return None
 
 
 def size_sources(P, f, o):
